@@ -57,9 +57,15 @@ def hist(seq, start, smax, demo=False):
              kf="C08_smaller_size" if demo else None,
              bounds={"operations": seq, "first_handle": start, "capacity": "1..%d" % smax, "second_size_argument": "0..%d" % (smax + 2),
                      "len": "1..%d" % (smax + 1)})
+def names(tier):
+    # long names through the real p_shm_buffer_new -> p_shm_new name handling + real SHA-1 key derivation (harness shared with C06)
+    import C06
+    qs = [C06.names(n, kind=2) for n in ([51] if tier == "quick" else [1, 50, 51, 64, 100])]
+    for q in qs: q.name = "shmbuffer_" + q.name
+    return qs
 def queries(tier):
     if tier == "quick":
-        return [step(op, 9) for op in range(5)] + \
+        return names(tier) + [step(op, 9) for op in range(5)] + \
                [hist("wr", 0, 4), hist("wr", 1, 4), hist("wwr", 0, 4), hist("wcu", 1, 4), hist("wfr", 1, 4), hist("w", 1, 4, demo=True)]
     seqs = [a + b for a in "wrcfu" for b in "wrcfu" if "w" in a + b] + ["wwr", "wrw", "wrr", "wcw", "wwc"]
-    return [step(op, 17) for op in range(5)] + [hist(s, st, 4) for s in seqs for st in (0, 1)] + [hist("w", 1, 4, demo=True)]
+    return names(tier) + [step(op, 17) for op in range(5)] + [hist(s, st, 4) for s in seqs for st in (0, 1)] + [hist("w", 1, 4, demo=True)]
